@@ -55,6 +55,8 @@ pub struct ExtraState {
     pub recon: BTreeMap<(usize, String), BTreeSet<String>>,
     pub left_by_disconnect: BTreeSet<String>,
     pub counters: BTreeMap<String, u64>,
+    // pending invitations (nick, channel) after the previous operation
+    pub invited: BTreeSet<(String, String)>,
 }
 
 fn handle(
